@@ -165,7 +165,8 @@ def gen_instance(rng, nmax, hermitian=None):
         Ri = R.conj().T
     else:
         R, Ri = unimodular(rng, n, cplx, bound=3)
-    g = rng.randint(1, min(3, n - 1))
+    # kernel size; 0 = E is not an eigenvalue (no kernel vectors: P = 1, nothing dropped or constrained)
+    g = 0 if rng.random() < 0.12 else rng.randint(1, min(3, n - 1))
     levels = [0] * g
     pool = [v for v in (-3, -2, -1, 1, 2, 3, 4)]
     while len(levels) < n:
@@ -204,8 +205,10 @@ def call_greens(c, same_object):
     kw = dict(kernel_vectors=Phi)
     if not same_object:
         kw["left_kernel_vectors"] = PhiL
+    if c["g"] == 0 and c.get("omit_kernel", True):
+        kw = {}  # documented default: "If omitted, an empty kernel basis is used"
     gf = impl_linalg.direct_greens_function(sp.csr_array(H), c["E"], **kw)
-    return gf, H, Phi, PhiL
+    return gf, H, Phi, PhiL, kw
 
 
 def check_instance(c):
@@ -216,10 +219,26 @@ def check_instance(c):
     with warnings.catch_warnings():
         warnings.simplefilter("ignore")
         try:
-            gf, H, Phi, PhiL = call_greens(c, same)
-            x = np.asarray(gf(np.array(c["b"].real if (c["real"] and not np.any(c["b"].imag)) else c["b"])))
+            gf, H, Phi, PhiL, kw = call_greens(c, same)
+            bvec = np.array(c["b"].real if (c["real"] and not np.any(c["b"].imag)) else c["b"])
+            x = np.asarray(gf(bvec.copy()))
         except Exception as e:
             return ["implementation raised %s: %s (model: well-posed instance, unique solution)" % (type(e).__name__, e)]
+    if c.get("deprecated"):
+        # the deprecated arguments `atol` / `eps` are documented as ignored: DeprecationWarning naming
+        # them, and bit-identical solution
+        dep = {k: v for k, v in (("atol", 1e-3), ("eps", 0.1)) if k in c["deprecated"]}
+        with warnings.catch_warnings(record=True) as wl:
+            warnings.simplefilter("always")
+            try:
+                x2 = np.asarray(impl_linalg.direct_greens_function(sp.csr_array(H), c["E"], **kw, **dep)(bvec.copy()))
+            except Exception as e:
+                return ["with deprecated arguments %s the implementation raised %s: %s" % (sorted(dep), type(e).__name__, e)]
+        msgs = [str(w.message) for w in wl if issubclass(w.category, DeprecationWarning)]
+        if not msgs or not all(any("`%s`" % k in m for m in msgs) for k in dep):
+            bad.append("deprecated arguments %s: no DeprecationWarning naming them (got %s)" % (sorted(dep), msgs))
+        if not np.array_equal(x2, x):
+            bad.append("deprecated (ignored) arguments %s change the solution by %.3g" % (sorted(dep), float(np.abs(x2 - x).max())))
     nl = inspect.getclosurevars(gf).nonlocals
     cols = impl_linalg._kernel_pivot_rows(Phi)
     rows_expected = cols if same else impl_linalg._kernel_pivot_rows(PhiL)
@@ -249,12 +268,17 @@ def check_instance(c):
     Cm[rows, cols] = 1
     if not np.array_equal(Mt_impl, Dm @ A + Cm):
         bad.append("_constrain_matrix differs from D A + C")
+    # default of the third argument: the constrained variables are the dropped equations
+    Cd = np.zeros((n, n))
+    Cd[rows, rows] = 1
+    if not np.array_equal(impl_linalg._constrain_matrix(sp.csr_array(A), rows).toarray(), Dm @ A + Cd):
+        bad.append("_constrain_matrix(mat, rows) differs from D A + sum_t e_{r_t} e_{r_t}^T")
     if bad:
         return bad
     # exact model solution
     sA = qsub(qeye(n, Fr(c["E"])), sH)
-    sP = qsub(qeye(n), qmul(sPhi, qH(sPhiL)))
-    if not (qzero(qmul(sA, sPhi)) and qzero(qmul(qH(sPhiL), sA)) and qzero(qsub(qmul(qH(sPhiL), sPhi), qeye(g)))):
+    sP = qsub(qeye(n), qmul(sPhi, qH(sPhiL))) if g else qeye(n)
+    if g and not (qzero(qmul(sA, sPhi)) and qzero(qmul(qH(sPhiL), sA)) and qzero(qsub(qmul(qH(sPhiL), sPhi), qeye(g)))):
         return ["generated instance does not satisfy the kernel relations exactly (harness bug)"]
     sD, sC = sym(Dm), sym(Cm)
     sMt = qadd(qmul(sD, sA), sC)
@@ -279,6 +303,8 @@ def tie_greens(ctx, ncases=None):
     for i in range(ncases):
         c = gen_instance(rng, ctx.n(6, 8))
         c["same_object"] = rng.random() < 0.5
+        c["omit_kernel"] = rng.random() < 0.5
+        c["deprecated"] = rng.choice([(), (), (), ("atol",), ("eps",), ("atol", "eps")])
         if i == 0:
             # exactly representable variant of the biorthogonal 2x2 instance of finding D10:
             # A = [[1/2,-1],[0,0]], right kernel (1,1/2), left kernel (0,2): dropped row 1, constrained column 0
@@ -286,12 +312,12 @@ def tie_greens(ctx, ncases=None):
                      Phi=np.array([[1.0], [0.5]], dtype=complex), PhiL=np.array([[0], [2.0]], dtype=complex),
                      b=np.array([1.0, 2.0], dtype=complex), same_object=False, levels=[0.0, -0.5])
         bad = check_instance(c)
-        feats.add((c["n"], c["g"], c["hermitian"], c["real"], c.get("same_object")))
+        feats.add((c["n"], c["g"], c["hermitian"], c["real"], c.get("same_object"), bool(c.get("deprecated")), c["g"] == 0 and c.get("omit_kernel")))
         if i in (1, 2):
             samples.append(inst_json(c))
         for b_ in bad[:2]:
             dis.append(dict(what=b_, input=inst_json(c), model="C16_direct: x = P z with Mt z = D P b (exact)", impl="see what"))
-    return dict(cases=ncases, nontrivial=len(feats), rule="distinct (n, kernel size, hermitian, real, left kernel passed as the same object)",
+    return dict(cases=ncases, nontrivial=len(feats), rule="distinct (n, kernel size incl. 0, hermitian, real, left kernel passed as the same object, deprecated arguments, kernel omitted)",
                 samples=samples, distribution=dict(features=len(feats)), disagreements=dis[:20])
 
 
@@ -509,7 +535,10 @@ def sylvester_kpm_problem(seed):
     eps = rng.choice([None, None, 0.01, 0.05])
     if eps is not None:
         opts["eps"] = eps
-    return dict(n=n, cplx=cplx, sizes=sizes, levels=levels, V=V, h0=h0, opts=opts, aux=aux)
+    default = rng.random() < 0.15   # solver_options=None: every option at its documented default
+    if default:
+        opts, aux = None, []
+    return dict(n=n, cplx=cplx, sizes=sizes, levels=levels, V=V, h0=h0, opts=opts, aux=aux, dense=rng.random() < 0.3)
 
 
 def eval_sylvester_kpm(seed):
@@ -526,7 +555,11 @@ def eval_sylvester_kpm(seed):
     with warnings.catch_warnings(record=True) as w:
         warnings.simplefilter("always")
         try:
-            solve = impl_bd.solve_sylvester_KPM(sp.csr_array(h0), vecs, solver_options=dict(p["opts"]))
+            h0_arg = np.array(h0) if p["dense"] else sp.csr_array(h0)
+            if p["opts"] is None:
+                solve = impl_bd.solve_sylvester_KPM(h0_arg, vecs)
+            else:
+                solve = impl_bd.solve_sylvester_KPM(h0_arg, vecs, solver_options=dict(p["opts"]))
         except Exception as e:
             return ["solve_sylvester_KPM raised %s: %s" % (type(e).__name__, e)], p
         for i in range(nb):
@@ -539,12 +572,91 @@ def eval_sylvester_kpm(seed):
                 continue
             res = np.abs(Ei[:, None] * Vs - Vs @ h0 - Y).max()
             res2 = np.abs(Vs @ P - Vs).max()
-            bound = 1e3 * p["opts"]["atol"] * (1 + np.abs(Y).max())
+            bound = 1e3 * (p["opts"] or dict(atol=1e-5))["atol"] * (1 + np.abs(Y).max())
             if not (res <= bound and res2 <= bound):
                 fails.append("solve_sylvester_KPM index (%d, implicit), auxiliary vectors %s: residual %.3g, |V P - V| = %.3g (bound %.3g)" % (i, p["aux"], res, res2, bound))
     if any(issubclass(x.category, RuntimeWarning) and "did not converge" in str(x.message) for x in w):
         fails = [f for f in fails if " raised " in f]
     return fails, p
+
+
+def eval_rescale(seed):
+    """kpm.rescale with explicit bounds (tight-but-valid and loose) or estimated bounds, dense ndarray and
+    sparse input, followed by kpm.greens_function on the rescaled problem; plus the two documented
+    rejections (single eigenvalue -> ValueError, unsupported type -> TypeError)."""
+    rng = __import__("random").Random(seed)
+    rs = np.random.default_rng(seed)
+    n = rng.randint(3, 6)
+    cplx = rng.random() < 0.4
+    a0 = rand_c(rs, (n, n), cplx)
+    h = (a0 + a0.conj().T) / 2
+    w = np.linalg.eigvalsh(h)
+    kind = rng.choice(["tight", "loose", "loose", "estimated", "single", "badtype"])
+    dense = rng.random() < 0.5
+    eps = rng.choice([0.01, 0.05, 0.2])
+    info = dict(kind=kind, dense=dense, n=n, cplx=cplx, eps=eps)
+    harg = np.array(h) if dense else sp.csr_array(h)
+    fails = []
+    with warnings.catch_warnings(record=True) as wl:
+        warnings.simplefilter("always")
+        if kind == "single":
+            c = rng.choice([2.0, -1.5])
+            hs = c * (np.eye(n) if dense else sp.identity(n, format="csr"))
+            try:
+                impl_kpm.rescale(hs, eps=eps)
+                fails.append("rescale accepted a Hamiltonian with a single eigenvalue (documented: ValueError)")
+            except ValueError:
+                pass
+            except Exception as e:
+                fails.append("rescale on a single-eigenvalue Hamiltonian raised %s instead of ValueError: %s" % (type(e).__name__, e))
+            return fails, info
+        if kind == "badtype":
+            try:
+                impl_kpm.rescale(h.tolist(), eps=eps, bounds=(float(w[0]), float(w[-1])))
+                fails.append("rescale accepted a nested list (documented: numpy array or sparse matrix)")
+            except TypeError:
+                pass
+            except Exception as e:
+                fails.append("rescale on a nested list raised %s instead of TypeError: %s" % (type(e).__name__, e))
+            return fails, info
+        if kind == "tight":
+            bounds = (float(w[0]), float(w[-1]))
+        elif kind == "loose":
+            bounds = (float(w[0]) - rng.choice([0.1, 1.0, 3.0]), float(w[-1]) + rng.choice([0.1, 2.0]))
+        else:
+            bounds = None
+        try:
+            hr, (a, b) = impl_kpm.rescale(harg, eps=eps, bounds=bounds)
+        except Exception as e:
+            return ["rescale(%s bounds, %s) raised %s: %s" % (kind, "dense" if dense else "sparse", type(e).__name__, e)], info
+        if dense != isinstance(hr, np.ndarray) or (not dense and not sp.issparse(hr)):
+            fails.append("rescale returned %s for a %s Hamiltonian" % (type(hr).__name__, "dense" if dense else "sparse"))
+        hrd = hr.toarray() if sp.issparse(hr) else np.asarray(hr)
+        if bounds is not None:
+            ea, eb = abs(bounds[1] - bounds[0]) / (2.0 - eps), (bounds[1] + bounds[0]) / 2.0
+            if not (np.isclose(a, ea, rtol=1e-13, atol=0) and np.isclose(b, eb, rtol=1e-13, atol=1e-15)):
+                fails.append("rescale parameters (a, b) = (%r, %r), bounds %s give (%r, %r)" % (a, b, bounds, ea, eb))
+        if not np.allclose(hrd, (h - b * np.eye(n)) / a, rtol=1e-12, atol=1e-12):
+            fails.append("rescaled Hamiltonian is not (H - b) / a")
+        wr = np.linalg.eigvalsh(hrd)
+        if not (wr[0] >= -1 - 1e-12 and wr[-1] <= 1 + 1e-12):
+            fails.append("spectrum of the rescaled Hamiltonian [%.6g, %.6g] leaves [-1, 1] (%s bounds)" % (wr[0], wr[-1], kind))
+        # Green's function of the original problem through the rescaled one
+        gaps = np.diff(w)
+        j = int(np.argmax(gaps))
+        E = float((w[j] + w[j + 1]) / 2)
+        v = rand_c(rs, (n,), cplx)
+        atol = 1e-4
+        try:
+            x = impl_kpm.greens_function(hr, (E - b) / a, v / a, atol, 1e5)
+        except Exception as e:
+            return fails + ["greens_function on the rescaled %s Hamiltonian raised %s: %s" % ("dense" if dense else "sparse", type(e).__name__, e)], info
+        res = float(np.linalg.norm((E * np.eye(n) - h) @ x - v))
+    warned = any(issubclass(x_.category, RuntimeWarning) and "did not converge" in str(x_.message) for x_ in wl)
+    if not warned and not res <= 2 * atol * a:
+        fails.append("(E - H) x = v through rescale (%s bounds): residual %.3g > atol*a = %.3g without warning" % (kind, res, atol * a))
+    info["warned"] = warned
+    return fails, info
 
 
 def oracle_kpm(ctx, n=None):
@@ -574,10 +686,18 @@ def oracle_kpm(ctx, n=None):
     for i in range(nsyl):
         seed = rng.randrange(2**31)
         fs, p = eval_sylvester_kpm(seed)
-        feats.add(("sylvester", tuple(p["sizes"]), len(p["aux"]) > 0, "max_moments" in p["opts"], "eps" in p["opts"], p["cplx"]))
+        o = p["opts"] or {}
+        feats.add(("sylvester", tuple(p["sizes"]), len(p["aux"]) > 0, "max_moments" in o, "eps" in o, p["cplx"], p["opts"] is None, p["dense"]))
         for f in fs[:1]:
             fails.append(dict(what=f, input=dict(oracle="kpm_sylvester", seed=seed)))
-    return dict(evaluations=n + nsyl, nontrivial=len(feats), rule="distinct (warned, converged, sparse) for greens_function; (block sizes, auxiliary_vectors?, max_moments?, eps?, complex) for solve_sylvester_KPM", samples=[], failures=fails[:10])
+    nres = ctx.n(40, 600)
+    for i in range(nres):
+        seed = rng.randrange(2**31)
+        fs, info = eval_rescale(seed)
+        feats.add(("rescale", info["kind"], info["dense"], info["cplx"], info.get("warned")))
+        for f in fs[:1]:
+            fails.append(dict(what=f, input=dict(oracle="kpm_rescale", seed=seed)))
+    return dict(evaluations=n + nsyl + nres, nontrivial=len(feats), rule="distinct (warned, converged, sparse) for greens_function; (block sizes, auxiliary_vectors?, max_moments?, eps?, complex, default options, dense h0) for solve_sylvester_KPM; (bounds kind, dense, complex, warned) for rescale", samples=[], failures=fails[:10])
 
 
 # ---------------------------------------------------------------------------
@@ -708,7 +828,8 @@ def eval_float_problem(p, rs):
         # --- solve_sylvester_direct
         eigvecs = [r if p["hermitian"] else (r, l) for r, l in zip(rights, lefts)]
         try:
-            solve = impl_bd.solve_sylvester_direct(h0_arg(), eigvecs, nonhermitian=not p["hermitian"], eigenvalue_atol=1e-9)
+            opts = {} if p.get("default_opts") else dict(eigenvalue_atol=1e-9)
+            solve = impl_bd.solve_sylvester_direct(h0_arg(), eigvecs, nonhermitian=not p["hermitian"], **opts)
         except Exception as e:
             return fails + ["solve_sylvester_direct raised %s: %s" % (type(e).__name__, e)]
         nb = len(sizes)
@@ -752,6 +873,80 @@ def eval_float_problem(p, rs):
     return fails
 
 
+def eval_direct_options(seed):
+    """Option handling of solve_sylvester_direct on a Hermitian problem whose explicit block has two
+    levels 1e-7 apart:
+      * eigenvalue_atol=1e-5 groups them (explicit-explicit element exactly zero, one constrained solve);
+      * the deprecated spelling atol=1e-5 must warn (DeprecationWarning) and give bit-identical results,
+        also together with the ignored `eps` (second warning) and when both spellings are given
+        (eigenvalue_atol wins);
+      * no option: documented default 1e-12, the two levels are NOT grouped (element Y/(E_0-E_1));
+      * a solver built with nonhermitian=False refuses the left-implicit block with NotImplementedError."""
+    rng = __import__("random").Random(seed)
+    rs = np.random.default_rng(seed)
+    n = rng.randint(4, 7)
+    cplx = rng.random() < 0.5
+    V = np.linalg.qr(rand_c(rs, (n, n), cplx))[0]
+    e0 = float(rng.choice([-1, 0, 2]))
+    split = 1e-7
+    D = np.array([e0, e0 + split] + [e0 + 4.0 + j for j in range(n - 2)])
+    h0 = V @ np.diag(D) @ V.conj().T
+    h0 = (h0 + h0.conj().T) / 2
+    vecs = [V[:, :2]]
+    P = np.eye(n) - V[:, :2] @ V[:, :2].conj().T
+    Y = rand_c(rs, (2, n), cplx)
+    Yd = rand_c(rs, (2, 2), cplx)
+    info = dict(n=n, cplx=cplx, e0=e0)
+    fails = []
+
+    def build(**kw):
+        with warnings.catch_warnings(record=True) as wl:
+            warnings.simplefilter("always")
+            sv = impl_bd.solve_sylvester_direct(sp.csr_array(h0), list(vecs), **kw)
+            out = (np.asarray(sv(Y.copy(), (0, 1))), np.asarray(sv(Yd.copy(), (0, 0))))
+        return sv, out, [str(w.message) for w in wl if issubclass(w.category, DeprecationWarning)]
+
+    try:
+        s_new, o_new, w_new = build(eigenvalue_atol=1e-5)
+        s_old, o_old, w_old = build(atol=1e-5)
+        s_eps, o_eps, w_eps = build(atol=1e-5, eps=0.2)
+        s_both, o_both, w_both = build(eigenvalue_atol=1e-5, atol=1e-12)
+        s_def, o_def, w_def = build()
+    except Exception as e:
+        return ["solve_sylvester_direct option handling raised %s: %s" % (type(e).__name__, e)], info
+    if w_new or w_def:
+        fails.append("DeprecationWarning without a deprecated option: %s" % (w_new + w_def))
+    if not any("`atol`" in m for m in w_old):
+        fails.append("deprecated option `atol` accepted without DeprecationWarning")
+    if not (any("`atol`" in m for m in w_eps) and any("`eps`" in m for m in w_eps)):
+        fails.append("deprecated options `atol`, `eps`: expected two DeprecationWarnings, got %s" % w_eps)
+    for name, o in (("atol=1e-5", o_old), ("atol=1e-5, eps=0.2", o_eps), ("eigenvalue_atol=1e-5, atol=1e-12", o_both)):
+        if not (np.array_equal(o[0], o_new[0]) and np.array_equal(o[1], o_new[1])):
+            fails.append("options (%s) do not give the solution of eigenvalue_atol=1e-5 (max difference %.3g / %.3g)" % (
+                name, float(np.abs(o[0] - o_new[0]).max()), float(np.abs(o[1] - o_new[1]).max())))
+    # tolerance actually used
+    if np.abs(o_new[1]).max() != 0:
+        fails.append("eigenvalue_atol=1e-5: levels 1e-7 apart are not treated as degenerate (explicit block not zero)")
+    expect = Yd[0, 1] / (D[0] - D[1])
+    if not np.isclose(o_def[1][0, 1], expect, rtol=1e-5):
+        fails.append("default options: explicit element %r, expected Y/(E_0-E_1) = %r (default eigenvalue_atol 1e-12)" % (complex(o_def[1][0, 1]), complex(expect)))
+    # residuals on the complement (grouped: the level of the group is E_0, error O(split))
+    for name, o, tol in (("eigenvalue_atol=1e-5", o_new, 1e-5), ("default", o_def, 1e-6)):
+        Vs = o[0]
+        res = np.abs(D[:2, None] * Vs - Vs @ h0 - Y @ P).max()
+        if not (res <= tol * (1 + np.abs(Vs).max()) and np.abs(Vs @ P - Vs).max() <= 1e-9 * (1 + np.abs(Vs).max())):
+            fails.append("%s: residual %.3g of E v - v h0 = y P (tol %.3g)" % (name, res, tol))
+    # left-implicit block without nonhermitian=True
+    try:
+        s_new(rand_c(rs, (n, 2), cplx), (1, 0))
+        fails.append("left-implicit block solved by a solver built with nonhermitian=False (documented: NotImplementedError)")
+    except NotImplementedError:
+        pass
+    except Exception as e:
+        fails.append("left-implicit block with nonhermitian=False raised %s instead of NotImplementedError: %s" % (type(e).__name__, e))
+    return fails, info
+
+
 def oracle_greens(ctx, n=None):
     pyrng = ctx.rng
     n = n or ctx.n(150, 4000)
@@ -762,14 +957,24 @@ def oracle_greens(ctx, n=None):
         sub = __import__("random").Random(seed)
         rot = i % 4 == 3  # real non-symmetric h0 with complex-conjugate explicit eigenvalues
         p = rotation_problem(sub) if rot else float_problem(rs, sub, ctx.n(7, 12))
+        # documented default eigenvalue_atol (1e-12) on the instances whose explicit levels are computed
+        # to rounding accuracy (unitary or exact eigenvectors)
+        p["default_opts"] = (p["hermitian"] or rot) and sub.random() < 0.4
         fs = eval_float_problem(p, rs)
-        feats.add((p["n"], p["cplx"], p["hermitian"], tuple(p["sizes"]), len(set(p["levels"])) < len(p["levels"]), p.get("family"), p.get("dense_h0")))
+        feats.add((p["n"], p["cplx"], p["hermitian"], tuple(p["sizes"]), len(set(p["levels"])) < len(p["levels"]), p.get("family"), p.get("dense_h0"), p["default_opts"]))
         for f in fs[:2]:
             fails.append(dict(what=("[%s, %s h0] " % (p["family"], "dense" if p["dense_h0"] else "sparse") if rot else "") + f,
                               input=dict(oracle="greens", seed=seed, nmax=ctx.n(7, 12), rotation=rot)))
         if len(fails) > 10:
             break
-    return dict(evaluations=n, nontrivial=len(feats), rule="distinct (n, complex, hermitian, explicit block sizes, degenerate explicit levels, rotation family, dense h0)", samples=[], failures=fails[:10])
+    nopt = ctx.n(8, 100)
+    for i in range(nopt):
+        seed = pyrng.randrange(2**31)
+        fs, info = eval_direct_options(seed)
+        feats.add(("options", info["n"], info["cplx"]))
+        for f in fs[:2]:
+            fails.append(dict(what=f, input=dict(oracle="direct_options", seed=seed)))
+    return dict(evaluations=n + nopt, nontrivial=len(feats), rule="distinct (n, complex, hermitian, explicit block sizes, degenerate explicit levels, rotation family, dense h0, default options); (n, complex) for the option-handling cases", samples=[], failures=fails[:10])
 
 
 def replay(inp):
@@ -780,7 +985,14 @@ def replay(inp):
         p = rotation_problem(sub) if inp.get("rotation") else float_problem(rs, sub, inp["nmax"])
         if inp.get("rotation"):
             print("  h0 (real dtype, %s) =" % ("dense" if p["dense_h0"] else "sparse"), p["h0"].tolist(), "explicit levels", p["levels"], "blocks", p["sizes"])
+        p["default_opts"] = (p["hermitian"] or bool(inp.get("rotation"))) and sub.random() < 0.4
         fs = eval_float_problem(p, rs)
+        for f in fs:
+            print("  still failing:", f)
+        return 1 if fs else 0
+    if inp.get("oracle") in ("kpm_rescale", "direct_options"):
+        fs, info = (eval_rescale if inp["oracle"] == "kpm_rescale" else eval_direct_options)(inp["seed"])
+        print("  case:", info)
         for f in fs:
             print("  still failing:", f)
         return 1 if fs else 0
